@@ -82,11 +82,11 @@ func Ok() Verdict { return Verdict{Kind: VOk} }
 
 // Case is what Build returns after running the real code on (kind, args).
 type Case struct {
-	Lines      []string                        // protocol lines for fhdrv
-	Judge      func(replies []string) Verdict  // compares impl result (captured in the closure) with replies
-	Nontrivial bool                            // by the property's stated rule
-	Tags       []string                        // input-distribution tags
-	Impl       string                          // canonical rendering of what the implementation did (for replays)
+	Lines      []string                       // protocol lines for fhdrv
+	Judge      func(replies []string) Verdict // compares impl result (captured in the closure) with replies
+	Nontrivial bool                           // by the property's stated rule
+	Tags       []string                       // input-distribution tags
+	Impl       string                         // canonical rendering of what the implementation did (for replays)
 }
 
 type Prop struct {
@@ -396,6 +396,10 @@ func main() {
 		corpus  = flag.String("corpus", "", "corpus dir")
 		known   = flag.String("known", "", "KNOWN_FINDINGS.txt")
 		maxViol = flag.Int("maxviol", 5, "stop collecting after this many distinct violations")
+		// crash attribution: a panic on a goroutine of the implementation kills the process; each worker notes the index
+		// of the case it is about to run in <inflight>.<worker>, and -only re-runs one case of the same deterministic list
+		inflight = flag.String("inflight", "", "path prefix for per-worker in-flight case indices")
+		only     = flag.Int("only", -1, "run only the case with this index of the generated list")
 	)
 	flag.Parse()
 	p := props[*propID]
@@ -456,6 +460,18 @@ func main() {
 		}
 	}
 
+	if *only >= 0 {
+		if *only >= len(cases) {
+			fmt.Fprintln(os.Stderr, "no such case")
+			os.Exit(2)
+		}
+		cases = cases[*only : *only+1]
+		if *out != "" {
+			cj, _ := json.Marshal(map[string]any{"case_kind": cases[0].kind, "args": hexArgs(cases[0].args)})
+			os.WriteFile(*out+".case", cj, 0o644)
+		}
+	}
+
 	// Build (run the implementation), possibly in parallel; keep order.
 	built := make([]*Case, len(cases))
 	panics := make([]string, len(cases))
@@ -467,12 +483,23 @@ func main() {
 	idx := make(chan int, 1024)
 	for w := 0; w < workers; w++ {
 		wg.Add(1)
-		go func() {
+		go func(w int) {
 			defer wg.Done()
+			var note *os.File
+			if *inflight != "" && *only < 0 {
+				note, _ = os.Create(fmt.Sprintf("%s.%d", *inflight, w))
+			}
 			for i := range idx {
+				if note != nil {
+					note.WriteAt([]byte(fmt.Sprintf("%-12d", i)), 0)
+				}
 				built[i], panics[i] = safeBuild(p, cases[i].kind, cases[i].args)
 			}
-		}()
+			if note != nil {
+				note.WriteAt([]byte(fmt.Sprintf("%-12d", -1)), 0)
+				note.Close()
+			}
+		}(w)
 	}
 	for i := range cases {
 		idx <- i
